@@ -58,6 +58,16 @@ def make_pool(rng):
         # letters only so that q-gram tokenizers see material too
         tables['l'].append(L)
         tables['r'].append(R)
+    if rng.random() < 0.35:
+        # long values (60-150 tokens) in one table pair: whatever a call learns from unusually long
+        # records must not carry over to later calls
+        k = rng.randrange(2)
+        words = ['w%d' % i for i in range(rng.choice([30, 200]))]
+        for spec, side in ((tables['l'][k], 'l'), (tables['r'][k], 'r')):
+            vals = spec['data'][side + 'attr']
+            for i in range(len(vals)):
+                if isinstance(vals[i], str) and rng.random() < 0.6:
+                    vals[i] = ' '.join(rng.choice(words) for _ in range(rng.randint(60, 150)))
     return tables
 
 
@@ -190,6 +200,7 @@ def run_case(case, rec, ssj=None):
     nsteps = rng.randint(6, 16)
     flips_total, completed = 0, 0
     shared_filters = {}      # filter objects live across calls, as in user code
+    filter_specs = {}
     for k in range(nsteps):
         step = random_step(rng, pool)
         call = step['call']
@@ -217,6 +228,7 @@ def run_case(case, rec, ssj=None):
             if fkey not in shared_filters and len(shared_filters) < 4 and rng.random() < 0.7:
                 try:
                     shared_filters[fkey] = T.make_filter(ssj, call['filter'], toks[tokname])
+                    filter_specs[fkey] = (call['filter'], tokname, filter_state(shared_filters[fkey]))
                 except Exception:
                     pass
             if fkey in shared_filters:
@@ -316,7 +328,58 @@ def run_case(case, rec, ssj=None):
                           'isolation on fresh objects (history: %s rows, isolated: %s rows)'
                           % (getattr(res, 'shape', None), getattr(iso, 'shape', None)),
                           case=dict(case, step=k))
+    # (iv) a filter object that served in the history decides pairs like a fresh one
+    for fkey, flt in shared_filters.items():
+        fspec, tokname, state0 = filter_specs[fkey]
+        changed = filter_state(flt) != state0
+        if changed:
+            rec.count('filter_objects_whose_attributes_changed(not judged by itself)')
+        filter_battery(ssj, rec, case, rng, flt, fspec, toks[tokname], 2500 if changed else 250)
     return {'flips': flips_total, 'completed': completed, 'steps': nsteps}
+
+
+def filter_state(flt):
+    return dict((k, repr(v)) for k, v in sorted(vars(flt).items()) if k != 'tokenizer')
+
+
+def filter_battery(ssj, rec, case, rng, used, fspec, tok, n):
+    """filter_pair of the used filter object against a freshly built one (same parameters, same
+    tokenizer object) on n value pairs of 1-40 tokens with high overlap."""
+    try:
+        fresh = T.make_filter(ssj, fspec, tok)
+    except Exception:
+        return
+    vocab = ['a%d' % i for i in range(rng.choice([12, 40]))]
+    state = T.tokenizer_state(tok)
+    for _ in range(n):
+        k = rng.randint(1, 40)
+        x = [rng.choice(vocab) for _ in range(k)]
+        y = list(x)
+        for _ in range(rng.randint(0, max(1, k // 2))):
+            r = rng.random()
+            if r < 0.4 and y:
+                y[rng.randrange(len(y))] = rng.choice(vocab)
+            elif r < 0.7 and y:
+                del y[rng.randrange(len(y))]
+            else:
+                y.insert(rng.randint(0, len(y)), rng.choice(vocab))
+        if rng.random() < 0.5:
+            rng.shuffle(y)
+        lv, rv = ' '.join(x), ' '.join(y)
+        try:
+            a, b = used.filter_pair(lv, rv), fresh.filter_pair(lv, rv)
+        except Exception:
+            rec.count('filter_battery_raised')
+            continue
+        rec.count('filter_battery_pairs')
+        if bool(a) != bool(b):
+            rec.violation('history_dependence', 'history seed=%d: the %s object used in the history '
+                          'says filter_pair(%r, %r) = %r, a fresh one %r'
+                          % (case['seed'], fspec, lv[:150], rv[:150], a, b), case=case)
+            break
+    if T.tokenizer_state(tok) != state:
+        rec.violation('tokenizer_changed', 'history seed=%d: filter_pair of %s left the tokenizer changed'
+                      % (case['seed'], fspec), case=case)
 
 
 def run_shard(shard, rec):
@@ -357,4 +420,6 @@ def coverage_extra(agg, tier):
             'flag_flips_observed': c.get('flag_flips_observed', 0),
             'calls_on_default_tokenizer': c.get('calls_on_default_tokenizer', 0),
             'snapshots_compared': c.get('snapshots_compared', 0),
-            'isolated_comparisons': c.get('isolated_comparisons', 0)}
+            'isolated_comparisons': c.get('isolated_comparisons', 0),
+            'calls_on_shared_filter_objects': c.get('calls_on_shared_filter_objects', 0),
+            'used_vs_fresh_filter_pairs': c.get('filter_battery_pairs', 0)}
